@@ -687,6 +687,14 @@ def rule_regex(repo: Repo) -> RuleResult:
                            f"group characters is swallowed into the last step"), {"pattern": pat, "reasons": sorted(set(reasons))})
         else:
             r.ok({"capture_group_can_match_line_break": False})
+        r.site(f"{label} [capture group admits PDDL names]")
+        missing = [ch for ch in "azAZ09_- " if not _group_admits(group_items, ch)]
+        if missing:
+            shown = ["<space>" if ch == " " else ch for ch in missing]
+            r.fail(Finding("C19.regex", owner, "group-alphabet", f"the capture group of {pat!r} cannot match {shown}: a step whose action name or arguments contain "
+                           f"such a character (PDDL names are made of letters, digits, '_' and '-') does not match and is dropped from the plan"), {"pattern": pat})
+        else:
+            r.ok({"capture_group_alphabet": "letters, digits, '_', '-', blank"})
         r.site(f"{label} [terminator]")
         term = _terminates(items[gi + 1:], multiline)
         if term is None:
@@ -698,6 +706,61 @@ def rule_regex(repo: Repo) -> RuleResult:
                            + ("" if multiline or not any(op == sre_c.AT and av == sre_c.AT_END for op, av in items[gi + 1:]) else " ('$' without MULTILINE only matches at the end of the log)")))
     r.require_sites(3)
     return r
+
+
+def _class_admits(av, ch: str) -> bool:
+    """membership of a character in a parsed character class (re._parser IN items)"""
+    o = ord(ch)
+    hit = False
+    neg = False
+    for op, a in av:
+        opn = str(op)
+        if opn == "NEGATE":
+            neg = True
+        elif opn == "LITERAL":
+            hit = hit or a == o
+        elif opn == "RANGE":
+            hit = hit or a[0] <= o <= a[1]
+        elif opn == "CATEGORY":
+            cat = str(a)
+            if cat in ("CATEGORY_WORD", "CATEGORY_UNI_WORD"):
+                hit = hit or ch.isalnum() or ch == "_"
+            elif cat in ("CATEGORY_DIGIT", "CATEGORY_UNI_DIGIT"):
+                hit = hit or ch.isdigit()
+            elif cat in ("CATEGORY_SPACE", "CATEGORY_UNI_SPACE"):
+                hit = hit or ch.isspace()
+            elif cat in ("CATEGORY_NOT_WORD", "CATEGORY_UNI_NOT_WORD"):
+                hit = hit or not (ch.isalnum() or ch == "_")
+            elif cat in ("CATEGORY_NOT_DIGIT", "CATEGORY_UNI_NOT_DIGIT"):
+                hit = hit or not ch.isdigit()
+            elif cat in ("CATEGORY_NOT_SPACE", "CATEGORY_UNI_NOT_SPACE"):
+                hit = hit or not ch.isspace()
+    return hit != neg
+
+
+def _group_admits(items, ch: str) -> bool:
+    """can some atom of the (sub)pattern match the character?"""
+    for op, av in items:
+        opn = str(op)
+        if opn == "IN" and _class_admits(av, ch):
+            return True
+        if opn == "LITERAL" and av == ord(ch):
+            return True
+        if opn == "NOT_LITERAL" and av != ord(ch):
+            return True
+        if opn == "ANY":
+            return True
+        if opn == "CATEGORY" and _class_admits([(op, av)], ch):
+            return True
+        if opn in ("MAX_REPEAT", "MIN_REPEAT", "POSSESSIVE_REPEAT") and _group_admits(av[2], ch):
+            return True
+        if opn == "SUBPATTERN" and _group_admits(av[3], ch):
+            return True
+        if opn == "BRANCH" and any(_group_admits(alt, ch) for alt in av[1]):
+            return True
+        if opn == "ATOMIC_GROUP" and _group_admits(av, ch):
+            return True
+    return False
 
 
 # ------------------------------------------------------------------------------------------------------------ C19.lower
